@@ -366,9 +366,13 @@ func (te *tableEngine) continueGame(alivePlayers []*TablePlayerState) error {
 					// fmt.Println("[DEBUG#continueGame] delay -> TableGameOpen")
 					// return te.TableGameOpen()
 					nextGameCount := te.table.State.GameCount + 1
+					// everybody who can be dealt in is expected, not only the survivors of the last hand
+					// (alivePlayers): with one survivor and a seated newcomer the gate would never open
 					participants := make(map[string]int)
-					for idx, player := range alivePlayers {
-						participants[player.PlayerID] = idx
+					for _, player := range te.table.State.PlayerStates {
+						if player.Bankroll > 0 && player.IsIn {
+							participants[player.PlayerID] = len(participants)
+						}
 					}
 					te.SetUpTableGame(nextGameCount, participants)
 					return nil
